@@ -955,7 +955,23 @@ fn parse_case_gen(seed: u64) -> (Vec<u8>, usize, Rng) {
             5 => wf::priority(sid, rng.chance(1, 2), sid + 2, rng.byte(), &mut bytes),
             6 => wf::rst(sid, *rng.pick(&[0u32, 8, 0xffff_ffff]), &mut bytes),
             7 => {
-                let es: Vec<(u16, u32)> = [(1u16, 100u32), (2, 0), (3, 10), (4, 70_000), (5, 16_384), (6, 1000), (8, 1), (0x55, 9)].iter().filter(|_| rng.chance(1, 2)).cloned().collect();
+                // known identifiers with legal values, unknown ones (incl. GREASE) anywhere, duplicates, any order
+                let mut es: Vec<(u16, u32)> = Vec::new();
+                for _ in 0..rng.range(0, 12) {
+                    let e = match rng.below(10) {
+                        0 => (1u16, *rng.pick(&[0u32, 100, 4096, 65_536])),
+                        1 => (2, rng.below(2) as u32),
+                        2 => (3, *rng.pick(&[0u32, 10, 0xffff_ffff])),
+                        3 => (4, *rng.pick(&[0u32, 5, 70_000, 0x7fff_ffff])),
+                        4 => (5, *rng.pick(&[16_384u32, 20_000, 0xff_ffff])),
+                        5 => (6, *rng.pick(&[0u32, 1000, 0xffff_ffff])),
+                        6 => (8, rng.below(2) as u32),
+                        7 => (0x0a0a, rng.next_u64() as u32),
+                        8 => (*rng.pick(&[0u16, 7, 9, 0x55, 0xffff]), rng.next_u64() as u32),
+                        _ => (0x1a1a, 0),
+                    };
+                    es.push(e);
+                }
                 wf::settings(&es, &mut bytes);
             }
             8 => wf::settings_ack(&mut bytes),
